@@ -20,3 +20,5 @@ for kind in ("file-ops", "metadata-only", "empty"):
     register(Unit(P, f"OUTCOME/Transaction.commit-{kind}", cp.h_tx_commit(kind, False), functions=TXF("commit"), replay=cp._replay_tx))
     register(Unit(P, f"ASYNC/Transaction.commit-{kind}", cp.h_tx_commit(kind, True), functions=TXF("commit"), replay=cp._replay_tx))
 register(Unit(P, "RELEASE/MetadataManager.commit-local", cp.h_mm_commit("local"), functions=[f"{cp.MM}:MetadataManager.commit"], replay=cp._replay_mm_commit))
+from contracts import C16_durable as _c16
+register(Unit(P, "ATOMIC/LocalStorageBackend.write_file-faults", _c16.h_write_file(True), functions=["storage_backend:LocalStorageBackend.write_file"], replay=_c16._replay_write_file))
